@@ -46,6 +46,10 @@ def check_records(ctx, world):
     n = 0
     for r in world.records:
         for name, snap in r["after"].items():
+            if "UNOBSERVABLE" in snap:
+                ctx.violation(what="after a call the waveform can no longer be observed", after=r["line"][:200], obj=name, observed=snap[:200],
+                              required="a consistent waveform")
+                return n
             f = dict(x.split("=", 1) for x in snap.split(" "))
             tm = f["timing"]
             if tm.startswith("I:"):
